@@ -11,7 +11,7 @@ import os, time, json
 from .. import core, build, lean, sim, extract
 
 PROP = "C02"
-MODULES = ["NngModel.Props.C02", "NngModel.Props.C02Expire"]
+MODULES = ["NngModel.Props.C02", "NngModel.Props.C02Expire", "NngModel.Props.C02Completions", "NngModel.Props.C02Taskq"]
 TMO = ["5", "11", "21", "inf", "inf", "def", "0"]
 ODD = [5, 11, 21, 31]
 EVEN = [2, 6, 12, 22, 40]
@@ -373,6 +373,12 @@ def run(tier, seed, replay=None):
         for tag, payload, no_input in eviol:
             v.violation(tag, payload, no_input=no_input)
         return v.finish()
+    if replay and json.load(open(replay)).get("sub") == "taskq":
+        from . import c02_taskq
+        tcov, tviol = c02_taskq.run_part(tier, seed, st, replay)
+        for tag, payload, no_input in tviol:
+            v.violation(tag, payload, no_input=no_input)
+        return v.finish()
     try:
         exe = sim.build_sim("s_aio", ["s_aio.c"])
     except build.BuildError as e:
@@ -517,6 +523,16 @@ def run(tier, seed, replay=None):
             found_input = found_input or not no_input
     else:
         ecov = {}
+    # the task layer under the aio (src/core/taskq.c) under thread schedules: Props/C02Taskq.lean + harness/u_taskq.c
+    from . import c02_taskq
+    tcov = {}
+    if rp_ is None:
+        tcov, tviol = c02_taskq.run_part(tier, seed, st, None)
+        for tag, payload, no_input in tviol:
+            if not no_input or not found_input:
+                v.violation(tag, payload, no_input=no_input)
+            found_input = found_input or not no_input
+        tcov = {k: x for k, x in tcov.items() if k != "samples"}
     if not found_input:
         if rejects:
             c, s, r = min(rejects, key=lambda x: x[0].nops())
@@ -551,7 +567,8 @@ def run(tier, seed, replay=None):
            "schedules_per_case": 20, "op_histogram": op_hist, "event_histogram": ev_hist, "violation_histogram": clause_hist,
            "samples": samples, "judge_violations": sum(len(x) for x in viol.values()), "acceptor_rejections": len(rejects), "crashes": len(crashes),
            "acceptor_peak_states": peak, "tree_config": {"aioFixExpire": fix_expire, "aioFixAbort": fix_abort, "aioDialerHonoursStart": fix_dial},
-           "extract_changed": st.extract_changed, "expire_part": ecov, "expire_rule": c02_expire.RULE}
+           "extract_changed": st.extract_changed, "expire_part": ecov, "expire_rule": c02_expire.RULE,
+           "taskq_part": tcov, "taskq_rule": c02_taskq.RULE}
     core.write_evidence(PROP, tier, seed, "proof", cov,
                         ["SIM interleaves at lock granularity: unlocked reads of a_result/a_count and true data races are invisible",
                          "only the user-visible aio is monitored; library-internal aios are exercised but not judged",
